@@ -1880,9 +1880,15 @@ class MacroExpander:
 
                     pre_expanded = []
                     for i, arg in enumerate(args):
+                        # The arguments merged into a variable argument
+                        # are always needed in expanded form by replace()
                         if (
                             i >= len(macro_lookup.arg_needs_expansion)
                             or macro_lookup.arg_needs_expansion[i]
+                            or (
+                                macro_lookup.variadic
+                                and i >= len(macro_lookup.args) - 1
+                            )
                         ):
                             arg_expansion = self.expand(
                                 arg,
